@@ -1349,6 +1349,9 @@ impl fmt::Display for TableFactor {
                 if !partitions.is_empty() {
                     write!(f, " PARTITION ({})", display_comma_separated(partitions))?;
                 }
+                if let Some(version) = version {
+                    write!(f, "{version}")?;
+                }
                 if let Some(args) = args {
                     write!(f, "(")?;
                     write!(f, "{}", display_comma_separated(&args.args))?;
@@ -1368,9 +1371,6 @@ impl fmt::Display for TableFactor {
                 }
                 if !with_hints.is_empty() {
                     write!(f, " WITH ({})", display_comma_separated(with_hints))?;
-                }
-                if let Some(version) = version {
-                    write!(f, "{version}")?;
                 }
                 Ok(())
             }
